@@ -640,7 +640,10 @@ def _fields(repo, rep):
                     src(a_.targets[0]) == src(lo) and
                     src(a_.value) == lv + ".end()"
                     for a_ in ast.walk(loops[0]))
-                okg = isinstance(v, ast.BinOp) and isinstance(
+                # (the gap is cut out of the tag's own text: the token)
+                tokprm = mt.node.args.args[0].arg
+                okg = src(gaps[0].value) == tokprm and isinstance(
+                    v, ast.BinOp) and isinstance(
                     v.op, ast.Add) and v.left is gaps[0] and \
                     src(v.right) == src(n.targets[0]) and isinstance(
                         fld, ast.Constant) and fld.value == first and lo_ok
@@ -1147,6 +1150,21 @@ def _verbatim(repo, rep):
               f.qualname, "a foreign processing instruction is re-assembled "
               "from all of its captured parts", construct="pi",
               where=L.where(f))
+    # (what is handed on is the re-assembled text, carrying the position,
+    # source and file name of the instruction's own name token)
+    fpi = repo.func(PROG + "visit_processing_instruction")
+    vt = [c for c in ast.walk(fpi.node) if isinstance(c, ast.Call)
+          and src(c.func) == "self.visit_text"]
+    tk = [c for c in ast.walk(fpi.node) if isinstance(c, ast.Call)
+          and src(c.func) == "Token" and len(c.args) == 4]
+    rep.check(bool(vt) and all(c.args and src(c.args[0]) == "text"
+                               for c in vt) and bool(tk) and all(
+        src(c.args[0]) == "text" and src(c.args[2]) == "name.source" and
+        src(c.args[3]) == "name.filename" and
+        src(c.args[1]).startswith("name.pos") for c in tk), "R03.4",
+        fpi.qualname, "the re-assembled instruction is what is emitted, as "
+        "a token of the name token's source and file",
+        construct="pi-text-emitted", where=L.where(fpi))
     # ... and it is handed on: neither the parser's nor the program's
     # visitor of processing instructions has an exit without a value (a
     # visitor that returns nothing drops the token from the document)
